@@ -27,8 +27,9 @@ type freeResult struct {
 	Batch     int     `json:"batch"`
 	Procs     int     `json:"procs"`
 	Entries   int     `json:"entries"`
-	Flushes   int     `json:"flushes"` // transactions begun (seen at the hook)
-	Overlap   bool    `json:"overlap"` // a call of one goroutine overlapped a flush of another (log order)
+	Late      int     `json:"late_tables"` // tables created by the first inserter in mid-run
+	Flushes   int     `json:"flushes"`     // transactions begun (seen at the hook)
+	Overlap   bool    `json:"overlap"`     // a call of one goroutine overlapped a flush of another (log order)
 	Crashed   bool    `json:"crashed"`
 	PanicMsg  string  `json:"panic_msg,omitempty"`
 	PanicIn   string  `json:"panic_in,omitempty"`
@@ -108,12 +109,27 @@ func runFree(run int, o freeOpts, dir string, rng *rand.Rand) (out []map[string]
 	}
 	_ = os.Remove(file)
 	rec := dr.NewDataRecorderWithDB(db)
-	for _, t := range freeTables {
+	// t1 and t2 exist from the start; t3 and t4 (both with location columns) mostly arrive later, created by the
+	// first inserter in the middle of its program — after earlier inserts and flushes, while the others keep going
+	var made [4]atomic.Bool
+	var lateTabs []int
+	for ti, t := range freeTables {
+		if ti >= 2 && rng.Intn(3) > 0 {
+			lateTabs = append(lateTabs, ti)
+			continue
+		}
 		rec.CreateTable(t.Name, shapes[t.Shape])
+		made[ti].Store(true)
 	}
 	dr.VerifSetBatchSize(rec, res.Batch)
 	dr.VerifGate = c.gate
-	c.log = append(c.log, map[string]any{"e": "start", "run": run, "batch": res.Batch})
+	initTabs := []string{}
+	for ti, t := range freeTables {
+		if made[ti].Load() {
+			initTabs = append(initTabs, t.Name)
+		}
+	}
+	c.log = append(c.log, map[string]any{"e": "start", "run": run, "batch": res.Batch, "init": initTabs})
 	// programs (generated up front from the seed)
 	tok := map[string]string{}
 	token := func(s string) string {
@@ -125,10 +141,12 @@ func runFree(run int, o freeOpts, dir string, rng *rand.Rand) (out []map[string]
 	}
 	inserted := map[string][]any{}
 	type item struct {
-		tab   string
-		e     any
-		ge    gEntry
-		flush bool
+		tab    string
+		ti     int
+		e      any
+		ge     gEntry
+		flush  bool
+		create int // > 0: not an entry but CreateTable(freeTables[create])
 	}
 	progs := make([][]item, res.Inserters)
 	id := 0
@@ -137,7 +155,8 @@ func runFree(run int, o freeOpts, dir string, rng *rand.Rand) (out []map[string]
 		n := 1 + rng.Intn(o.MaxPer)
 		for j := 0; j < n; j++ {
 			id++
-			t := freeTables[rng.Intn(len(freeTables))]
+			ti := rng.Intn(len(freeTables))
+			t := freeTables[ti]
 			e := gen(rng, t.Shape, id, gopt)
 			loc := "-"
 			if ls := locsOf(e); len(ls) > 0 {
@@ -146,14 +165,30 @@ func runFree(run int, o freeOpts, dir string, rng *rand.Rand) (out []map[string]
 					token(l)
 				}
 			}
-			progs[i] = append(progs[i], item{tab: t.Name, e: e, ge: gEntry{ID: id, Tab: t.Name, Loc: loc}, flush: o.Single && rng.Intn(7) == 0})
-			inserted[t.Name] = append(inserted[t.Name], e)
+			progs[i] = append(progs[i], item{tab: t.Name, ti: ti, e: e, ge: gEntry{ID: id, Tab: t.Name, Loc: loc}, flush: o.Single && rng.Intn(7) == 0})
 			if res.Sample == "" && t.Shape == "wide" {
 				res.Sample = short(render(e))
 			}
 		}
 	}
-	res.Entries = id
+	{
+		at := map[int][]int{} // position in the first inserter's program -> tables created there
+		for _, ti := range lateTabs {
+			k := rng.Intn(len(progs[0]) + 1)
+			at[k] = append(at[k], ti)
+		}
+		var p0 []item
+		for k := 0; k <= len(progs[0]); k++ {
+			for _, ti := range at[k] {
+				p0 = append(p0, item{create: ti, flush: rng.Intn(3) > 0})
+			}
+			if k < len(progs[0]) {
+				p0 = append(p0, progs[0][k])
+			}
+		}
+		progs[0] = p0
+	}
+	done := make([][]item, res.Inserters) // what each goroutine really inserted (an entry for a table that is not there yet is skipped)
 	var stop atomic.Bool
 	var wg sync.WaitGroup
 	ret := func(p *proc) {
@@ -175,6 +210,19 @@ func runFree(run int, o freeOpts, dir string, rng *rand.Rand) (out []map[string]
 				if stop.Load() {
 					return
 				}
+				if it.create > 0 {
+					if it.flush {
+						rec.Flush() // interning happens at flush time: the dictionary is in use when the table arrives
+						ret(p)
+					}
+					rec.CreateTable(freeTables[it.create].Name, shapes[freeTables[it.create].Shape])
+					made[it.create].Store(true)
+					continue
+				}
+				if !made[it.ti].Load() {
+					continue
+				}
+				done[i] = append(done[i], it)
 				c.mu.Lock()
 				p.cur = &gEntry{ID: it.ge.ID, Tab: it.ge.Tab, Loc: it.ge.Loc}
 				c.log = append(c.log, stepLine(p, "ins", it.ge.Tab))
@@ -247,6 +295,20 @@ func runFree(run int, o freeOpts, dir string, rng *rand.Rand) (out []map[string]
 	c.mu.Lock()
 	log := c.log
 	c.mu.Unlock()
+	res.Entries = 0
+	for _, d := range done {
+		for _, it := range d {
+			inserted[it.tab] = append(inserted[it.tab], it.e)
+			res.Entries++
+		}
+	}
+	var madeTables []tableSpec
+	for ti, t := range freeTables {
+		if made[ti].Load() {
+			madeTables = append(madeTables, t)
+		}
+	}
+	res.Late = len(lateTabs)
 	res.Overlap, res.Flushes = overlap(log)
 	rowsOut := map[string][][2]int64{}
 	for _, t := range freeTables {
@@ -254,12 +316,14 @@ func runFree(run int, o freeOpts, dir string, rng *rand.Rand) (out []map[string]
 	}
 	locsOut := [][2]any{}
 	if !res.Crashed {
-		res.Verdict = judge(file, freeTables, inserted)
-		rows, locs, err := rawRows(file, freeTables)
+		res.Verdict = judge(file, madeTables, inserted)
+		rows, locs, err := rawRows(file, madeTables)
 		if err != nil {
 			res.Verdict.OK, res.Verdict.Symptom, res.Verdict.Detail = false, "read_error", err.Error()
 		} else {
-			rowsOut = rows
+			for name, r := range rows {
+				rowsOut[name] = r
+			}
 			unknown := 0
 			for _, l := range locs {
 				s := l[1].(string)
@@ -292,15 +356,16 @@ type valueResult struct {
 	Batch    int     `json:"batch"`
 	Entries  int     `json:"entries"`
 	Pattern  string  `json:"pattern"`
-	Rejected bool    `json:"rejected"` // CreateTable refused the shape: its kinds are not "allowed"
+	Late     bool    `json:"late_tables"` // t2 and t3 are created after earlier inserts (and mostly after a flush)
+	Rejected bool    `json:"rejected"`    // CreateTable refused the shape: its kinds are not "allowed"
 	Crashed  bool    `json:"crashed"`
 	PanicMsg string  `json:"panic_msg,omitempty"`
 	Verdict  verdict `json:"verdict"`
 	Sample   string  `json:"sample,omitempty"`
 }
 
-func runValues(k int, shape, class string, batch int, pattern string, n int, dir string, rng *rand.Rand) (res valueResult) {
-	res = valueResult{Case: fmt.Sprintf("v%d", k), Shape: shape, Class: class, Batch: batch, Pattern: pattern}
+func runValues(k int, shape, class string, batch int, pattern string, late bool, n int, dir string, rng *rand.Rand) (res valueResult) {
+	res = valueResult{Case: fmt.Sprintf("v%d", k), Shape: shape, Class: class, Batch: batch, Pattern: pattern, Late: late}
 	base := filepath.Join(dir, fmt.Sprintf("v%d-%d", k, fileSeq.Add(1)))
 	file := base + ".sqlite3"
 	defer os.Remove(file)
@@ -314,7 +379,20 @@ func runValues(k int, shape, class string, batch int, pattern string, n int, dir
 		}
 	}()
 	rec = dr.NewDataRecorder(base)
+	// t3 has another shape: tables of different shapes, created at different times, share the location dictionary
+	other := map[string]string{"wide": "twoloc", "twoloc": "ge", "ge": "wide", "narrow": "ge"}[shape]
 	tables := []tableSpec{{"t1", shape}, {"t2", shape}}
+	if other != "" && class == "storable" {
+		tables = append(tables, tableSpec{"t3", other})
+	}
+	made := len(tables)
+	createAt := map[int]bool{}
+	if late {
+		made = 1
+		for i := 1; i < len(tables); i++ {
+			createAt[1+rng.Intn(n+1)] = true // before entry number …, or after the last one
+		}
+	}
 	creating := true
 	defer func() {
 		if creating {
@@ -324,15 +402,28 @@ func runValues(k int, shape, class string, batch int, pattern string, n int, dir
 			}
 		}
 	}()
-	for _, t := range tables {
-		rec.CreateTable(t.Name, shapes[shape])
+	for _, t := range tables[:made] {
+		rec.CreateTable(t.Name, shapes[t.Shape])
 	}
 	creating = false
+	createNext := func() {
+		if made < len(tables) {
+			if rng.Intn(3) > 0 {
+				rec.Flush() // interning happens at flush time: the dictionary is in use when the next table arrives
+			}
+			rec.CreateTable(tables[made].Name, shapes[tables[made].Shape])
+			made++
+		}
+	}
 	dr.VerifSetBatchSize(rec, batch)
 	inserted := map[string][]any{}
 	gopt := genOpts{rich: true, nlocs: 1 + rng.Intn(len(strPool)+5)}
 	for i := 1; i <= n; i++ {
-		e := gen(rng, shape, i, gopt)
+		if createAt[i] {
+			createNext()
+		}
+		ti := rng.Intn(made)
+		e := gen(rng, tables[ti].Shape, i, gopt)
 		if w, ok := e.(Wide); ok {
 			switch class {
 			case "uint64_above_int64":
@@ -342,7 +433,7 @@ func runValues(k int, shape, class string, batch int, pattern string, n int, dir
 			}
 			e = w
 		}
-		t := tables[rng.Intn(2)].Name
+		t := tables[ti].Name
 		inserted[t] = append(inserted[t], e)
 		res.Entries++
 		if res.Sample == "" {
@@ -362,6 +453,9 @@ func runValues(k int, shape, class string, batch int, pattern string, n int, dir
 				rec.Flush()
 			}
 		}
+	}
+	for made < len(tables) && late {
+		createNext() // a table created last and left empty
 	}
 	if err := rec.Close(); err != nil {
 		panic("Close returned " + err.Error())
@@ -416,10 +510,11 @@ func init() {
 	// values: sequential round trips — every shape x value class x batch size x flush pattern
 	reg.Register("values", func(raw json.RawMessage) (any, error) {
 		var in struct {
-			Seed   int64  `json:"seed"`
-			Dir    string `json:"dir"`
-			Rounds int    `json:"rounds"`
-			N      int    `json:"n"`
+			Seed     int64  `json:"seed"`
+			Dir      string `json:"dir"`
+			Rounds   int    `json:"rounds"`
+			N        int    `json:"n"`
+			BothLate bool   `json:"both_late"` // every combination with tables up front and with tables created late (else alternating)
 		}
 		if err := json.Unmarshal(raw, &in); err != nil {
 			return nil, err
@@ -431,8 +526,14 @@ func init() {
 			for _, shape := range []string{"wide", "narrow", "twoloc", "ge"} {
 				for _, batch := range []int{1, 2, 3, 100000} {
 					for _, pattern := range []string{"none", "each", "random", "double"} {
-						k++
-						results = append(results, runValues(k, shape, "storable", batch, pattern, 1+rng.Intn(in.N), in.Dir, rng))
+						lates := []bool{false, true}
+						if !in.BothLate {
+							lates = []bool{(round+len(results))%2 == 1} // alternate
+						}
+						for _, late := range lates {
+							k++
+							results = append(results, runValues(k, shape, "storable", batch, pattern, late, 1+rng.Intn(in.N), in.Dir, rng))
+						}
 					}
 				}
 			}
@@ -440,7 +541,7 @@ func init() {
 		for _, c := range [][2]string{{"wide", "uint64_above_int64"}, {"wide", "uint_above_int64"}, {"cplx128", "complex"}, {"cplx64", "complex"}} {
 			for _, batch := range []int{1, 100000} {
 				k++
-				results = append(results, runValues(k, c[0], c[1], batch, "none", 3, in.Dir, rng))
+				results = append(results, runValues(k, c[0], c[1], batch, "none", false, 3, in.Dir, rng))
 			}
 		}
 		return map[string]any{"runs": len(results), "results": results}, nil
